@@ -24,17 +24,20 @@ Qed.
 Lemma grow_rest_split V zpre : forall zpre' T T' p zpost,
   map dn zpre' = map dn zpre -> (forall g, In g zpre -> fisfunc (fst g) = false) ->
   (forall g g', In (g, g') (combine zpre zpre') -> forall y, In (UPend y) (fund (fst g')) -> In (UPend y) (fund (fst g))) ->
+  (forall g g', In (g, g') (combine zpre zpre') -> forall y, In (UArg y) (fund (fst g')) -> In (UArg y) (fund (fst g))) ->
   grow_one V (T, p) (T', p) ->
   grow_rest V (zpre ++ (T, p) :: zpost) (zpre' ++ (T', p) :: zpost).
 Proof.
-  induction zpre as [|g t IH]; intros [|g' t'] T T' p zpost Hdn Hpre Hpend HT; cbn in Hdn; try discriminate.
+  induction zpre as [|g t IH]; intros [|g' t'] T T' p zpost Hdn Hpre Hpend Harg HT; cbn in Hdn; try discriminate.
   - cbn. split; [exact HT|apply grow_rest_refl].
   - injection Hdn as H1 H2. cbn [app grow_rest]. split.
-    + split; [rewrite H1; apply incl_refl|]. split; [intros y Hy; left; rewrite <- H1; exact Hy|].
-      intros y Hy. apply (Hpend g g'); [left; reflexivity|exact Hy].
-    + unfold below. rewrite (Hpre g (or_introl eq_refl)). apply IH; [exact H2| | |exact HT].
+    + split; [rewrite H1; apply incl_refl|]. split; [intros y Hy; left; rewrite <- H1; exact Hy|]. split.
+      * intros y Hy. apply (Hpend g g'); [left; reflexivity|exact Hy].
+      * intros y Hy. apply (Harg g g'); [left; reflexivity|exact Hy].
+    + unfold below. rewrite (Hpre g (or_introl eq_refl)). apply IH; [exact H2| | | |exact HT].
       * intros g0 Hg0. apply Hpre. right. exact Hg0.
       * intros g0 g0' Hin. apply Hpend. right. exact Hin.
+      * intros g0 g0' Hin. apply Harg. right. exact Hin.
 Qed.
 
 Lemma func_dnames_app zpre T p r :
@@ -49,7 +52,8 @@ Lemma L_decl_var' a fr pr rest decl x :
   exists a' fr' rest',
     a_declare a decl x = ARun a' /\ AInv a' ((fr', pr) :: rest') /\
     grow [] [x] ((fr, pr) :: rest) ((fr', pr) :: rest') /\ In x (func_dnames ((fr', pr) :: rest')) /\
-    (forall y, In (UPend y) (fund fr') -> In (UPend y) (fund fr)) /\
+    ((forall y, In (UPend y) (fund fr') -> In (UPend y) (fund fr)) /\
+     (forall y, In (UArg y) (fund fr') -> In (UArg y) (fund fr))) /\
     anext a' = anext a /\
     map (final (env_of ((fr, pr) :: rest))) (alog a')
     = TBind (func_of ((fr, pr) :: rest)) false x :: map (final (env_of ((fr, pr) :: rest))) (alog a).
@@ -58,27 +62,29 @@ Proof.
   destruct (L_decl_var a ((fr, pr) :: rest) decl x A Hd Hv) as (a' & z' & H1 & A' & Hs & Hn & Hfin & Hstruct).
   destruct (walk_ok decl x ((fr, pr) :: rest) (A_frames _ _ A) Hv) as (zpre & T & prT & zpost & Ez & _ & HfT & _ & Hpre & _).
   destruct (Hstruct zpre T prT zpost Ez HfT (fun g Hg => proj1 (Hpre g Hg)))
-    as (zpre' & T' & Ez' & Hdn & _ & Hpre' & HfT' & Hx & Hmono & Hbound & Hfund & Hpend).
+    as (zpre' & T' & Ez' & Hdn & _ & Hpre' & HfT' & Hx & Hmono & Hbound & Hfund & Hpend & Harg).
   assert (G : grow [] [x] ((fr, pr) :: rest) z').
   { apply grow_rest_of_all; [exact Hs|]. rewrite Ez, Ez'. apply grow_rest_split.
     - exact Hdn.
     - intros g Hg. apply Hpre. exact Hg.
     - intros g g' Hin y Hy. apply (Hpend g g' Hin y). exact Hy.
-    - split; [exact Hmono|]. split.
+    - exact Harg.
+    - split; [exact Hmono|]. split; [|split].
       + intros y Hy. destruct (Hbound y Hy) as [H| ->]; [left; exact H|right; left; reflexivity].
+      + intros y Hy. apply Hfund. exact Hy.
       + intros y Hy. apply Hfund. exact Hy. }
   destruct (shape_cons_inv z' fr pr rest Hs) as (fr' & rest' & -> & _).
   exists a', fr', rest'. split; [exact H1|]. split; [exact A'|]. split; [exact G|]. split.
   { rewrite Ez'. rewrite func_dnames_app by assumption. exact Hx. }
   split; [|split; [exact Hn|exact Hfin]].
   (* the unresolved uses of the top frame do not grow *)
-  intros y Hy. destruct zpre as [|g0 zpre0].
+  destruct zpre as [|g0 zpre0].
   - cbn [app] in Ez. injection Ez as E1 E2 E3. subst T prT zpost.
     destruct zpre' as [|g0' zpre0']; [|cbn in Hdn; discriminate]. cbn [app] in Ez'. injection Ez' as E1' E2'. subst fr' rest'.
-    apply Hfund. exact Hy.
+    split; intros y Hy; apply Hfund; exact Hy.
   - cbn [app] in Ez. injection Ez as E1 E2. subst g0.
     destruct zpre' as [|g0' zpre0']; [cbn in Hdn; discriminate|]. cbn [app] in Ez'. injection Ez' as E1' E2'. subst g0'.
-    apply (Hpend (fr, pr) (fr', pr)); [left; reflexivity|exact Hy].
+    split; intros y Hy; [apply (Hpend (fr, pr) (fr', pr)); [left; reflexivity|exact Hy]|apply (Harg (fr, pr) (fr', pr)); [left; reflexivity|exact Hy]].
 Qed.
 
 (* what the induction over binding programs establishes *)
@@ -97,6 +103,7 @@ Definition run_ok (p : prog) : Prop :=
       (forall x, In x (vardecls p) -> In x (func_dnames ((fr', pr) :: rest'))) /\
       (forall x, In x (headdecls p) -> In x (dnames fr')) /\
       (forall y, In (UPend y) (fund fr') -> In (UPend y) (fund fr) \/ In y (allnames p)) /\
+      (forall y, In (UArg y) (fund fr') -> In (UArg y) (fund fr)) /\
       map (final (env_of ((fr, pr) :: rest))) (alog a')
         = rev (fst (resolve_m (env_of ((fr, pr) :: rest)) (func_of ((fr, pr) :: rest)) (fid fr) false (anext a) p))
           ++ map (final (env_of ((fr, pr) :: rest))) (alog a) /\
@@ -115,10 +122,10 @@ Proof. intros [_ H]. exact H. Qed.
 Lemma run_ok_ref x k : ~ In x (headdecls k) -> run_ok k -> run_ok (Ref x k).
 Proof.
   intros Hxk IH a fr pr rest A Hnd Hlex Hvar Hndh Hhead Hok.
-  destruct (L_use a fr pr rest x A) as (a1 & fr1 & L & H1 & A1 & E1 & E2 & E3 & E4 & E5 & E6 & E7).
+  destruct (L_use a fr pr rest x A) as (a1 & fr1 & L & H1 & A1 & E1 & E2 & E3 & _ & E4 & E5 & E6 & E7).
   assert (Hs1 : shape ((fr1, pr) :: rest) = shape ((fr, pr) :: rest)) by (cbn; rewrite E1, E2; reflexivity).
   assert (Edn : dnames fr1 = dnames fr) by (unfold dnames; rewrite E3; reflexivity).
-  destruct (IH a1 fr1 pr rest A1 Hnd) as (a' & fr' & rest' & R1 & A' & G & P1 & P2 & P3 & P4 & F & N).
+  destruct (IH a1 fr1 pr rest A1 Hnd) as (a' & fr' & rest' & R1 & A' & G & P1 & P2 & P3 & P4 & P5 & F & N).
   { intros y Hy. rewrite Edn. apply Hlex. exact Hy. }
   { intros y Hy. apply (var_ok_shape y ((fr, pr) :: rest)); [symmetry; exact Hs1|apply Hvar; exact Hy]. }
   { exact Hndh. }
@@ -134,6 +141,8 @@ Proof.
   split; [exact P1|]. split; [exact P2|]. split; [exact P3|]. split.
   { intros y Hy. cbn [allnames]. destruct (P4 y Hy) as [H|H]; [|right; right; exact H].
     destruct (E7 _ H) as [H'|H']; [left; exact H'|]. injection H' as ->. right. left. reflexivity. }
+  split.
+  { intros y Hy. destruct (E7 _ (P5 y Hy)) as [H'|H']; [exact H'|discriminate]. }
   cbn [resolve_m]. destruct (resolve_m (env_of ((fr, pr) :: rest)) (func_of ((fr, pr) :: rest)) (fid fr) false (anext a) k) as [r n1].
   cbn [fst snd] in *. split; [|exact N].
   rewrite F, E4. cbn [map rev]. rewrite E6, <- app_assoc. reflexivity.
@@ -148,7 +157,7 @@ Proof.
   destruct (L_decl_top a fr pr rest LexicalDecl x A (or_introl eq_refl) Hxn) as (a1 & fr1 & H1 & A1 & E1 & E2 & E3 & E4 & E5 & E6).
   { unfold pnames. apply in_app_iff. right. exact Hxp. } { intros _. exact Hxp. } { discriminate. }
   assert (Hs1 : shape ((fr1, pr) :: rest) = shape ((fr, pr) :: rest)) by (cbn; rewrite E1, E2; reflexivity).
-  destruct (IH a1 fr1 pr rest A1 Hndk) as (a' & fr' & rest' & R1 & A' & G & P1 & P2 & P3 & P4 & F & N).
+  destruct (IH a1 fr1 pr rest A1 Hndk) as (a' & fr' & rest' & R1 & A' & G & P1 & P2 & P3 & P4 & P5 & F & N).
   { intros y Hy. destruct (Hlex y (or_intror Hy)) as [Hyp Hyn]. split; [exact Hyp|]. rewrite E3. intros Hi. apply in_app_last in Hi.
     destruct Hi as [Hi| ->]; contradiction. }
   { intros y Hy. apply (var_ok_shape y ((fr, pr) :: rest)); [symmetry; exact Hs1|apply Hvar; exact Hy]. }
@@ -169,6 +178,8 @@ Proof.
   { cbn [lexdecls is_lex app]. intros y [<-|Hy]; [apply Gi; rewrite E3; apply in_app_last; right; reflexivity|apply P1; exact Hy]. }
   split; [exact P2|]. split; [cbn [headdecls app]; exact P3|]. split.
   { intros y Hy. cbn [allnames]. destruct (P4 y Hy) as [H|H]; [left; apply E4; exact H|right; right; exact H]. }
+  split.
+  { intros y Hy. apply E4. apply P5. exact Hy. }
   cbn [resolve_m is_var]. destruct (resolve_m (env_of ((fr, pr) :: rest)) (func_of ((fr, pr) :: rest)) (fid fr) false (anext a) k) as [r n1].
   cbn [fst snd] in *. split; [|exact N].
   rewrite F, E6. cbn [map rev]. rewrite <- app_assoc. reflexivity.
@@ -184,7 +195,7 @@ Proof.
   { unfold pnames. apply in_app_iff. left. exact Hxp. } { intros H. exfalso. apply H. reflexivity. } { intros _. exact Hxu. }
   assert (Hs1 : shape ((fr1, pr) :: rest) = shape ((fr, pr) :: rest)) by (cbn; rewrite E1, E2; reflexivity).
   pose proof (A_frames _ _ A) as [Kfr _].
-  destruct (IH a1 fr1 pr rest A1 Hnd) as (a' & fr' & rest' & R1 & A' & G & P1 & P2 & P3 & P4 & F & N).
+  destruct (IH a1 fr1 pr rest A1 Hnd) as (a' & fr' & rest' & R1 & A' & G & P1 & P2 & P3 & P4 & P5 & F & N).
   { intros y Hy. destruct (Hlex y Hy) as [Hyp Hyn]. split; [exact Hyp|]. rewrite E3. intros Hi. apply in_app_last in Hi.
     destruct Hi as [Hi| ->]; [contradiction|]. apply (K_disj _ _ _ Kfr x Hyp Hxp). }
   { intros y Hy. apply (var_ok_shape y ((fr, pr) :: rest)); [symmetry; exact Hs1|apply Hvar; exact Hy]. }
@@ -209,6 +220,8 @@ Proof.
   { intros y [<-|Hy]; [apply Gi; rewrite E3; apply in_app_last; right; reflexivity|apply P3; exact Hy]. }
   split.
   { intros y Hy. cbn [allnames]. destruct (P4 y Hy) as [H|H]; [left; apply E4; exact H|right; right; exact H]. }
+  split.
+  { intros y Hy. apply E4. apply P5. exact Hy. }
   cbn [resolve_m is_var]. destruct (resolve_m (env_of ((fr, pr) :: rest)) (func_of ((fr, pr) :: rest)) (fid fr) false (anext a) k) as [r n1].
   cbn [fst snd] in *. split; [|exact N].
   rewrite F, E6. cbn [map rev]. rewrite <- app_assoc. reflexivity.
@@ -223,12 +236,12 @@ Proof.
   rewrite Elex in Hnd, Hlex. rewrite Evar in Hvar.
   assert (Hdc : decl_code d = VariableDecl \/ decl_code d = FunctionDecl) by (destruct Hd as [-> | ->]; [left|right]; reflexivity).
   destruct (L_decl_var' a fr pr rest (decl_code d) x A Hdc (Hvar x (or_introl eq_refl)))
-    as (a1 & fr1 & rest1 & H1 & A1 & G1 & Px & Pu & N1 & F1).
+    as (a1 & fr1 & rest1 & H1 & A1 & G1 & Px & [Pu Pa] & N1 & F1).
   pose proof (grow_shape _ _ _ _ G1) as Hs1.
   destruct (grow_top _ _ _ _ _ _ _ G1) as (G1i & G1b & _).
   pose proof (A_frames _ _ A) as [Kfr _].
   assert (E1 : fid fr1 = fid fr) by (cbn in Hs1; injection Hs1 as H _; exact H).
-  destruct (IH a1 fr1 pr rest1 A1 Hnd) as (a' & fr' & rest' & R1 & A' & G & P1 & P2 & P3 & P4 & F & N).
+  destruct (IH a1 fr1 pr rest1 A1 Hnd) as (a' & fr' & rest' & R1 & A' & G & P1 & P2 & P3 & P4 & P5 & F & N).
   { intros y Hy. destruct (Hlex y Hy) as [Hyp Hyn]. split; [exact Hyp|]. intros Hi.
     destruct (G1b y Hi) as [H|[[]|[<-|[]]]]; [contradiction|].
     apply (lex_var_contra fr pr rest x Kfr Hyp). apply Hvar. left. reflexivity. }
@@ -248,6 +261,8 @@ Proof.
   { rewrite Evar. intros y [<-|Hy]; [apply (func_dnames_mono _ _ _ _ G); exact Px|apply P2; exact Hy]. }
   split; [rewrite Ehead; intros y []|]. split.
   { intros y Hy. cbn [allnames]. destruct (P4 y Hy) as [H|H]; [left; apply Pu; exact H|right; right; exact H]. }
+  split.
+  { intros y Hy. apply Pa. apply P5. exact Hy. }
   cbn [resolve_m]. replace (is_var d) with true by (destruct Hd as [-> | ->]; reflexivity).
   destruct (resolve_m (env_of ((fr, pr) :: rest)) (func_of ((fr, pr) :: rest)) (fid fr) false (anext a) k) as [r n1].
   cbn [fst snd] in *. split; [|exact N].
